@@ -959,3 +959,28 @@ Example ex_prog_onnx :
   end = Some (mkC [2; 3]%nat (map VZ [1; 5; -9; 2; -5; -9])).
 Proof. vm_compute. reflexivity. Qed.
 Local Close Scope string_scope.
+
+(* ================================================================ composing kernel graphs (what a multi-equation program lowers to) *)
+Fixpoint ksubst (e : kx) (args : list kx) : kx :=
+  match e with
+  | KVar i => nth i args (KVar i)
+  | KConst c => KConst c
+  | KOp1 o a => KOp1 o (ksubst a args)
+  | KOp2 o a b => KOp2 o (ksubst a args) (ksubst b args)
+  | KOp3 o a b c => KOp3 o (ksubst a args) (ksubst b args) (ksubst c args)
+  end.
+(* the scalar function of a composed graph is the composition of the scalar functions *)
+Lemma kev_s_ksubst e : forall args xs, kok (length args) e ->
+  kev_s (ksubst e args) xs = kev_s e (map (fun a => kev_s a xs) args).
+Proof.
+  induction e as [i|c|o a IHa|o a IHa b IHb|o a IHa b IHb c IHc]; intros args xs Hk; simpl in *.
+  - change (kev_s (KVar i) (map (fun a => kev_s a xs) args)) with (nth i (map (fun a => kev_s a xs) args) sv0).
+    rewrite (nth_indep _ sv0 ((fun a => kev_s a xs) (KVar i))) by (now rewrite map_length).
+    now rewrite (map_nth (fun a => kev_s a xs) args (KVar i) i).
+  - reflexivity.
+  - destruct Hk as (_ & _ & Ha). unfold kev_s in *. simpl. now rewrite IHa.
+  - destruct Hk as (_ & _ & Ha & Hb). unfold kev_s in *. simpl. now rewrite IHa, IHb.
+  - destruct Hk as (_ & _ & Ha & Hb & Hc). unfold kev_s in *. simpl. now rewrite IHa, IHb, IHc.
+Qed.
+(* the graph of a table primitive (KVar 999 when the primitive is not in the exact fragment: any comparison then fails) *)
+Definition kx_of (name : string) : kx := match exact_table name with Some k => k_expr k | None => KVar 999 end.
